@@ -134,6 +134,10 @@ pub trait Adapter<V: Vdaf> {
     fn layout(&self, kind: Kind, agg: usize, round: u8, ap: &ApSpec) -> Vec<Region>;
     /// build an output share of a wrong length from raw element bytes (for refusal checks)
     fn wrong_len_output(&self, bytes: &[u8], ap: &ApSpec, other_level: bool) -> Option<V::OutputShare>;
+    /// another instance of the SAME Rust type with other parameters (for cross-instance misuse)
+    fn same_type_instance(&self, _other: &Inst) -> Option<V> {
+        None
+    }
 }
 
 // ---- Byzantine client seam: a Type that encodes a raw field vector verbatim --------------------
@@ -239,6 +243,7 @@ where
 pub trait P3Class {
     type T: Type;
     fn typ(&self) -> &Self::T;
+    fn make(inst: &Inst) -> Option<Self::T>;
     fn meas(&self, m: &[N]) -> <Self::T as Type>::Measurement;
     fn result_vec(&self, r: &<Self::T as Type>::AggregateResult) -> Vec<u128>;
 }
@@ -370,6 +375,14 @@ where
         }
         v
     }
+    fn same_type_instance(&self, other: &Inst) -> Option<Prio3<C::T, XofTurboShake128, 32>> {
+        use prio::vdaf::Vdaf;
+        if other.class != self.inst.class || other.mt != self.inst.mt {
+            return None;
+        }
+        let typ = C::make(other)?;
+        Prio3::new(other.n, other.proofs, self.evil.algorithm_id(), typ).ok()
+    }
     #[allow(deprecated)]
     fn wrong_len_output(&self, bytes: &[u8], _ap: &ApSpec, other_level: bool) -> Option<prio::vdaf::OutputShare<<C::T as Flp>::Field>> {
         use prio::field::FieldElement;
@@ -383,12 +396,15 @@ where
 // ---- concrete classes -------------------------------------------------------------------------------
 
 macro_rules! p3class {
-    ($name:ident, $t:ty, |$s:ident, $m:ident| $meas:expr, |$r:ident| $res:expr) => {
+    ($name:ident, $t:ty, |$s:ident, $m:ident| $meas:expr, |$r:ident| $res:expr, |$i:ident| $make:expr) => {
         pub struct $name(pub $t);
         impl P3Class for $name {
             type T = $t;
             fn typ(&self) -> &$t {
                 &self.0
+            }
+            fn make($i: &Inst) -> Option<$t> {
+                $make
             }
             fn meas(&self, $m: &[N]) -> <$t as Type>::Measurement {
                 let $s = self;
@@ -406,17 +422,17 @@ type PS128 = ParallelSum<Field128, Mul>;
 type PS64 = ParallelSum<Field64, Mul>;
 type PSM128 = ParallelSumMultithreaded<Field128, Mul>;
 
-p3class!(CCount, Count<Field64>, |s, m| m[0].0 != 0, |r| vec![*r as u128]);
-p3class!(CSum, Sum<Field64>, |s, m| m[0].0 as u64, |r| vec![*r as u128]);
-p3class!(CAvg, Average<Field128>, |s, m| m[0].0, |r| vec![r.to_bits() as u128]);
-p3class!(CSumVec, SumVec<Field128, PS128>, |s, m| m.iter().map(|x| x.0).collect(), |r| r.clone());
-p3class!(CSumVecMt, SumVec<Field128, PSM128>, |s, m| m.iter().map(|x| x.0).collect(), |r| r.clone());
-p3class!(CSumVec64, SumVec<Field64, PS64>, |s, m| m.iter().map(|x| x.0 as u64).collect(), |r| r.iter().map(|x| *x as u128).collect());
-p3class!(CHist, Histogram<Field128, PS128>, |s, m| m[0].0 as usize, |r| r.clone());
-p3class!(CHistMt, Histogram<Field128, PSM128>, |s, m| m[0].0 as usize, |r| r.clone());
-p3class!(CMulti, MultihotCountVec<Field128, PS128>, |s, m| m.iter().map(|x| x.0 != 0).collect(), |r| r.clone());
-p3class!(CMultiMt, MultihotCountVec<Field128, PSM128>, |s, m| m.iter().map(|x| x.0 != 0).collect(), |r| r.clone());
-p3class!(CL1, L1BoundSum<Field128, PS128>, |s, m| m.iter().map(|x| x.0).collect(), |r| r.clone());
+p3class!(CCount, Count<Field64>, |s, m| m[0].0 != 0, |r| vec![*r as u128], |i| { let _ = i; Some(Count::new()) });
+p3class!(CSum, Sum<Field64>, |s, m| m[0].0 as u64, |r| vec![*r as u128], |i| Sum::new(i.max.0 as u64).ok());
+p3class!(CAvg, Average<Field128>, |s, m| m[0].0, |r| vec![r.to_bits() as u128], |i| Average::new(i.max.0).ok());
+p3class!(CSumVec, SumVec<Field128, PS128>, |s, m| m.iter().map(|x| x.0).collect(), |r| r.clone(), |i| SumVec::new(i.max.0, i.len as usize, i.chunk as usize).ok());
+p3class!(CSumVecMt, SumVec<Field128, PSM128>, |s, m| m.iter().map(|x| x.0).collect(), |r| r.clone(), |i| SumVec::new(i.max.0, i.len as usize, i.chunk as usize).ok());
+p3class!(CSumVec64, SumVec<Field64, PS64>, |s, m| m.iter().map(|x| x.0 as u64).collect(), |r| r.iter().map(|x| *x as u128).collect(), |i| SumVec::new(i.max.0 as u64, i.len as usize, i.chunk as usize).ok());
+p3class!(CHist, Histogram<Field128, PS128>, |s, m| m[0].0 as usize, |r| r.clone(), |i| Histogram::new(i.len as usize, i.chunk as usize).ok());
+p3class!(CHistMt, Histogram<Field128, PSM128>, |s, m| m[0].0 as usize, |r| r.clone(), |i| Histogram::new(i.len as usize, i.chunk as usize).ok());
+p3class!(CMulti, MultihotCountVec<Field128, PS128>, |s, m| m.iter().map(|x| x.0 != 0).collect(), |r| r.clone(), |i| MultihotCountVec::new(i.len as usize, i.weight as usize, i.chunk as usize).ok());
+p3class!(CMultiMt, MultihotCountVec<Field128, PSM128>, |s, m| m.iter().map(|x| x.0 != 0).collect(), |r| r.clone(), |i| MultihotCountVec::new(i.len as usize, i.weight as usize, i.chunk as usize).ok());
+p3class!(CL1, L1BoundSum<Field128, PS128>, |s, m| m.iter().map(|x| x.0).collect(), |r| r.clone(), |i| L1BoundSum::new(i.max.0, i.len as usize, i.chunk as usize).ok());
 
 pub enum BuildErr {
     Refused(String),
